@@ -313,6 +313,21 @@ Proof.
   eapply filled_ext; [exact Hf|apply after_ext].
 Qed.
 
+(* a new session's first check consults the providers afresh - if the thread-local caches are cleared on the path the previous
+   session ended on *)
+Theorem fresh_after_session_end : forall (cc cr committed : bool) (c : caches) (t p : nat) (x : target),
+  (if committed then cc else cr) = true ->
+  snd (check (end_session cc cr committed c) t p x)
+  = answer (groups_at t) (match x with TObj o => roles_at t o | _ => [] end) (match x with TObj o => labels_at t o | _ => [] end) p x.
+Proof.
+  intros cc cr committed c t p x H. unfold end_session. rewrite H. unfold C34Perm.check, answer.
+  destruct x; reflexivity.
+Qed.
+
+(* the label cache never survives a session *)
+Lemma labels_never_survive : forall cc cr committed c, c_labels (end_session cc cr committed c) = [].
+Proof. intros cc cr committed c. unfold end_session. destruct (if committed then cc else cr); reflexivity. Qed.
+
 End StableProofs.
 
 (* ------------------------------------------------------------------ witnesses of the deviations, for any value of the variation points *)
@@ -353,6 +368,11 @@ Proof. reflexivity. Qed.
 Lemma src_object_exclusion : obj_exclusion_tests_entity = true.
 Proof. reflexivity. Qed.
 Lemma src_missing_reverse : missing_reverse_rules_returns_false = false.
+Proof. reflexivity. Qed.
+
+Lemma src_caches_cleared_on_commit : provider_caches_cleared_on_commit = true.
+Proof. reflexivity. Qed.
+Lemma src_caches_cleared_on_rollback : provider_caches_cleared_on_rollback = true.
 Proof. reflexivity. Qed.
 
 Section Now.
@@ -398,6 +418,20 @@ Proof.
   intros objs. rewrite to_json_refuses. split; intros [o [Hin H]]; exists o; (split; [exact Hin|]).
   - intros Hs. apply can_view_now_spec in Hs. rewrite Hs in H; discriminate.
   - destruct (can_view_now (TObj o)) eqn:E; [|reflexivity]. exfalso. apply H. apply can_view_now_spec. exact E.
+Qed.
+
+(* as the source is: whichever way the previous session of the thread ended - commit or rollback - the first check of the next
+   session is answered from what the providers say then *)
+Theorem fresh_after_session_end_now : forall groups_at roles_at labels_at committed c t p x,
+  snd (check rev_loop_iterates_reverse_rules obj_exclusion_tests_entity missing_reverse_rules_returns_false
+             attr_ent attr_rev attr_hidden obj_ent rules groups_at roles_at labels_at
+             (end_session provider_caches_cleared_on_commit provider_caches_cleared_on_rollback committed c) t p x)
+  = answer rev_loop_iterates_reverse_rules obj_exclusion_tests_entity missing_reverse_rules_returns_false
+           attr_ent attr_rev attr_hidden obj_ent rules
+           (groups_at t) (match x with TObj o => roles_at t o | _ => [] end) (match x with TObj o => labels_at t o | _ => [] end) p x.
+Proof.
+  intros. apply fresh_after_session_end.
+  rewrite src_caches_cleared_on_commit, src_caches_cleared_on_rollback. destruct committed; reflexivity.
 Qed.
 
 Theorem to_json_include_now_spec : forall related o l,
